@@ -207,4 +207,9 @@ def run(chk):
     chk.guard(r15_2, chk)
     chk.guard(r15_3, chk)
     chk.guard(r15_4, chk)
+    from .common import conversion_is_a_read
+
+    def conv_r15_5(c):
+        conversion_is_a_read(c, "R15.5")
+    chk.guard(conv_r15_5, chk)
     chk.assume("np.ndarray.setfield on .base writes all six values in one call (no partial write visible to Python code)")
